@@ -38,11 +38,20 @@ class JsonRPC:
         self._status_by_error = status_by_error
 
         kwargs.setdefault('json_loader', flask.json.loads)
-        kwargs.setdefault('json_dumper', flask.json.dumps)
+        kwargs.setdefault('json_dumper', self._json_dumps)
 
         self._dispatcher = FlaskDispatcher(**kwargs)
         self._endpoints: Dict[str, FlaskDispatcher] = {'': self._dispatcher}
         self._blueprints: Dict[str, flask.Blueprint] = {}
+
+    @staticmethod
+    def _json_dumps(obj: Any, cls: Any = None, **kwargs: Any) -> str:
+        # flask's json provider passes its own `default` hook to the encoder, which shadows the `default` method of the
+        # pjrpc encoder class; hand the encoder's method over as that hook instead
+        if cls is not None:
+            kwargs.setdefault('default', cls().default)
+
+        return flask.json.dumps(obj, **kwargs)
 
     @property
     def dispatcher(self) -> FlaskDispatcher:
